@@ -17,6 +17,16 @@ package c08
 // rest of the block x statements in front, in a called function and in main.
 //
 // Family "wrn" - analyzer warnings with a known culprit (unused declarations, shadowing).
+//
+// Family "trg" - event machinery: `trigger <callback> <at|in|on> <trigger>(args);` statements, the
+// `#[trigger …]` / `#[…]` annotations of functions, `event fn` callbacks and `import trigger`. Every
+// name of such a construct (callback, trigger function, argument, annotation item, imported trigger)
+// is a culprit of its own: a diagnostic about one of them has to point at that one and not at its
+// neighbour in the same statement. Product: carrier (statement in main / nested block / loop / helper
+// function / global initialiser, annotation first / second item) x fault (undefined callback, callback
+// that is a variable or an imported function, undefined trigger, both, argument count / type /
+// undefined argument), plus single templates for callback signature and modifier errors, self
+// triggering, trigger imports and illegal annotations.
 
 import (
 	"fmt"
@@ -34,6 +44,7 @@ func familyTemplates() []diagTpl {
 		famTpls = append(famTpls, blockResultFamily()...)
 		famTpls = append(famTpls, unreachableFamily()...)
 		famTpls = append(famTpls, warningFamily()...)
+		famTpls = append(famTpls, triggerFamily()...)
 	})
 	return famTpls
 }
@@ -256,6 +267,110 @@ func warningFamily() []diagTpl {
 	ma.Hint, ma.HintRel = `^Any branches following this arm are unreachable`, "within"
 	ma.Tags = []string{heldOutTag}
 	out = append(out, ma)
+	return out
+}
+
+const trgTop = "import trigger minute from triggers;\nevent fn tick(elapsed: int) { println(elapsed); }\n"
+
+// carriers of a trigger construct: {CB} callback, {KW} dispatch keyword, {TR} trigger function, {ARGS} argument list
+var trgCarriers = []struct {
+	Name string
+	Stmt bool // a trigger statement (names its callback); false: an annotation of the callback
+	Text string
+}{
+	{"main", true, "fn main() {\n    %PRE%trigger%NL%{CB} {KW} {TR}{ARGS};\n}\n"},
+	{"main-after", true, "fn main() {\n    println(0);\n    trigger tick at minute(5);\n    %PRE%trigger {CB} {KW}%NL%{TR}{ARGS};\n    println(1);\n}\n"},
+	{"nested", true, "fn main() {\n    if true {\n        println(1);\n        %PRE%trigger {CB}%NL%{KW} {TR}{ARGS};\n    }\n}\n"},
+	{"loop", true, "fn main() {\n    for i in 0..2 { println(i); %PRE%trigger {CB} {KW} {TR}{ARGS}; }\n}\n"},
+	{"helper", true, "fn setup(n: int) {\n    println(n);\n    %PRE%trigger {CB} {KW} {TR}{ARGS};\n}\nfn main() { setup(1); }\n"},
+	{"closure", true, "fn main() {\n    let q = fn() { %PRE%trigger {CB} {KW} {TR}{ARGS}; };\n    q();\n}\n"},
+	{"global-init", true, "let g = {\n    trigger {CB} {KW}%NL%{TR}{ARGS};\n    1\n};\nfn main() { %PRE%println(g); }\n"},
+	{"ann", false, "#[trigger {KW}%NL%{TR}{ARGS}]\nevent fn w(e: int) { println(e); }\nfn main() { %PRE%println(1); }\n"},
+	{"ann-second", false, "fn main() { %PRE%println(1); }\n\n#[allow_unused,%NL%trigger {KW} {TR}{ARGS}]\nevent fn w(e: int) {\n    println(e);\n}\n"},
+}
+
+// faults of a trigger construct ({CB} / {TR} / {ARGS} carry the culprit markers)
+var trgFaults = []struct {
+	Name         string
+	StmtOnly     bool
+	Pre          string // further top-level items
+	Local        string // statement placed in front (statement carriers only): declares the variable used as callback
+	CB, TR, Args string
+	Msg, Rel     string
+	Mods         map[string]string
+}{
+	{Name: "undef-callback", StmtOnly: true, CB: "«tock»", TR: "minute", Args: "(10)", Msg: `^Use of undefined callback function 'tock'`, Rel: "eq"},
+	{Name: "undef-callback-imported", StmtOnly: true, Pre: "import other from lib;\n", CB: "«other»", TR: "minute", Args: "(10)", Msg: `^Use of undefined callback function 'other'`, Rel: "eq",
+		Mods: map[string]string{"lib": "pub fn other(elapsed: int) { println(elapsed); }\nfn main() {}\n"}},
+	{Name: "undef-callback-global", StmtOnly: true, Pre: "let cbv = fn(e: int) { println(e); };\n", CB: "«cbv»", TR: "minute", Args: "(10)", Msg: `^Use of undefined callback function 'cbv'`, Rel: "eq"},
+	{Name: "undef-callback-builtin", StmtOnly: true, CB: "«println»", TR: "minute", Args: "(10)", Msg: `^Use of undefined callback function 'println'`, Rel: "eq"},
+	{Name: "undef-callback-trigger-name", StmtOnly: true, CB: "«minute»", TR: "minute", Args: "(10)", Msg: `^Use of undefined callback function 'minute'`, Rel: "eq"},
+	{Name: "undef-trigger", CB: "tick", TR: "«second»", Args: "(30)", Msg: `^Use of undefined trigger function 'second'`, Rel: "eq"},
+	{Name: "undef-trigger-fn-name", CB: "tick", TR: "«tick»", Args: "(30)", Msg: `^Use of undefined trigger function 'tick'`, Rel: "eq"},
+	{Name: "undef-both-callback", StmtOnly: true, CB: "«tock»", TR: "second", Args: "(30)", Msg: `^Use of undefined callback function 'tock'`, Rel: "eq"},
+	{Name: "undef-both-trigger", StmtOnly: true, CB: "tock", TR: "«second»", Args: "(30)", Msg: `^Use of undefined trigger function 'second'`, Rel: "eq"},
+	{Name: "undef-both-arg", StmtOnly: true, CB: "tock", TR: "second", Args: "(«nope»)", Msg: `^Use of undefined variable or function 'nope'`, Rel: "eq"},
+	{Name: "undef-callback-arg", StmtOnly: true, CB: "tock", TR: "minute", Args: "(1 +%NL%«nope»)", Msg: `^Use of undefined variable or function 'nope'`, Rel: "eq"},
+	{Name: "args-none", CB: "tick", TR: "minute", Args: "«()»", Msg: `^Function requires 1 argument`, Rel: "within"},
+	{Name: "args-many", CB: "tick", TR: "minute", Args: "«(1,%NL%2)»", Msg: `^Function requires 1 argument`, Rel: "within"},
+	{Name: "arg-type", CB: "tick", TR: "minute", Args: "(«\"x\"»)", Msg: `^Mismatched types: expected 'int', got 'str'`, Rel: "within"},
+	{Name: "arg-infix", CB: "tick", TR: "minute", Args: "(2 * («1 -%NL%true»))", Msg: `^Mismatched types: expected 'int', got 'bool'`, Rel: "within"},
+	{Name: "arg-undef", CB: "tick", TR: "minute", Args: "(«nope»)", Msg: `^Use of undefined variable or function 'nope'`, Rel: "eq"},
+	{Name: "arg-undef-call", CB: "tick", TR: "minute", Args: "(3 + «nofn»(1))", Msg: `^Use of undefined variable or function 'nofn'`, Rel: "eq"},
+}
+
+func triggerFamily() []diagTpl {
+	var out []diagTpl
+	kws := []string{"at", "in", "on"}
+	n := 0
+	for _, c := range trgCarriers {
+		for _, f := range trgFaults {
+			if f.StmtOnly && !c.Stmt {
+				continue
+			}
+			text := c.Text
+			for _, kv := range [][2]string{{"{CB}", f.CB}, {"{TR}", f.TR}, {"{ARGS}", f.Args}, {"{KW}", kws[n%len(kws)]}} {
+				text = strings.ReplaceAll(text, kv[0], kv[1])
+			}
+			n++
+			out = append(out, diagTpl{
+				Name: fmt.Sprintf("trg-%s-%s", c.Name, f.Name),
+				Kind: "top", Text: trgTop + f.Pre + text, Mods: f.Mods, Msg: f.Msg, Rel: f.Rel, Gen: true,
+			})
+		}
+	}
+	one := func(name, text, msg, rel, hint, hintRel string) {
+		out = append(out, diagTpl{Name: "trg-" + name, Kind: "top", Text: trgTop + text, Msg: msg, Rel: rel, Hint: hint, HintRel: hintRel, Gen: true})
+	}
+	const use = "fn main() {\n    %PRE%trigger cb at minute(1);\n}\n"
+	// a local variable is not a callback either
+	one("undef-callback-local", "fn main() {\n    let cb = fn(e: int) { println(e); };\n    cb(1);\n    %PRE%trigger%NL%«cb» at minute(10);\n}\n", `^Use of undefined callback function 'cb'`, "eq", "", "")
+	one("undef-callback-param", "fn setup(cb: fn(e: int) -> null) {\n    cb(1);\n    %PRE%trigger «cb» in%NL%minute(10);\n}\nfn main() { setup(fn(e: int) { println(e); }); }\n", `^Use of undefined callback function 'cb'`, "eq", "", "")
+	// the callback is not an event function: the culprit is the target function (its name, or a range around it in its definition)
+	one("modifier-none", "⟦fn%NL%«cb»(elapsed: int) { println(elapsed); }⟧\n"+use, "^Target function misses the `event` modifier", "nested", "", "")
+	one("modifier-pub", "⟦pub fn%NL%«cb»(elapsed: int) { println(elapsed); }⟧\n"+use, "^Target function has wrong modifier `pub`", "nested", "", "")
+	one("ann-modifier-none", "⟦#[trigger at minute(1)]\nfn%NL%«w»(e: int) { println(e); }⟧\nfn main() { %PRE%println(1); }\n", "^Target function misses the `event` modifier", "nested", "", "")
+	// callback signature errors: parameter type at the parameter, count / result at the callback's name in the
+	// trigger statement (or a range around it inside the statement); the hint names the function
+	const usedAs = `^This function is used as a callback for trigger`
+	one("callback-param-type", "event fn ‹cb›(elapsed:%NL%«str») { println(elapsed); }\n"+use, `Mismatched types: expected 'int', got 'str'`, "within", usedAs, "eq")
+	one("callback-param-count", "event fn ‹cb›(elapsed: int, more: int) { println(elapsed, more); }\nfn main() {\n    %PRE%⟦trigger%NL%«cb» at minute(1);⟧\n}\n", `Expected 1 parameter`, "nested", usedAs, "eq")
+	one("callback-param-none", "event fn ‹cb›() { }\nfn main() {\n    %PRE%⟦trigger «cb» on%NL%minute(1);⟧\n}\n", `Expected 1 parameter`, "nested", usedAs, "eq")
+	one("callback-result", "event fn ‹cb›(elapsed: int) -> int { elapsed }\nfn main() {\n    %PRE%⟦trigger «cb» at minute(1);⟧\n}\n", `Mismatched types: expected 'null', got 'int'`, "nested", usedAs, "eq")
+	// a function triggering itself: the statement
+	one("self", "event fn again(elapsed: int) {\n    println(elapsed);\n    %PRE%«trigger again at%NL%minute(1);»\n}\nfn main() {\n    trigger again at minute(1);\n}\n", `^Cannot trigger function from itself`, "within", "", "")
+	// trigger imports
+	one("import-unknown", "import «trigger%NL%nope» from triggers;\nfn main() { %PRE%println(1); }\n", `^No trigger named 'nope' found in module 'triggers'`, "within", "", "")
+	out = append(out, diagTpl{Name: "trg-import-duplicate", Kind: "top", Text: "import ‹trigger minute› from triggers;\nimport «trigger%NL%minute» from triggers;\nfn main() { %PRE%println(1); }\n",
+		Msg: `^Trigger function 'minute' already exists`, Rel: "within", Hint: `previously imported here`, HintRel: "within", Gen: true})
+	one("use-as-function", "fn main() {\n    %PRE%«minute»(1);\n}\n", `^Use of undefined variable or function 'minute'`, "eq", "", "")
+	lib := diagTpl{Name: "trg-import-from-module", Kind: "top", Text: "import «trigger%NL%minute» from lib;\nfn main() { %PRE%println(1); }\n", Msg: `^No trigger named 'minute' found in module 'lib'`, Rel: "within", Gen: true,
+		Mods: map[string]string{"lib": "pub fn other() {}\nfn main() {}\n"}}
+	out = append(out, lib)
+	// annotation items
+	one("ann-illegal", "#[«nope»]\nfn w(e: int) { println(e); }\nfn main() { %PRE%w(1); }\n", "^Illegal annotation: `nope`", "eq", "", "")
+	one("ann-illegal-second", "#[allow_unused,%NL%«nope»]\nfn w(e: int) { println(e); }\nfn main() { %PRE%println(1); }\n", "^Illegal annotation: `nope`", "eq", "", "")
+	one("ann-illegal-before-trigger", "#[«nope»,%NL%trigger at minute(1)]\nevent fn w(e: int) { println(e); }\nfn main() { %PRE%println(1); }\n", "^Illegal annotation: `nope`", "eq", "", "")
 	return out
 }
 
